@@ -370,10 +370,158 @@ func TestVerif_C13_live(t *testing.T) {
 		c13Finish(t, s, pend)
 		pend = nil
 	}
-	for _, must := range []string{"baseline-ok-h1", "baseline-ok-h2", "baseline-ok-h3", "request-body-dumped-h1", "request-body-dumped-h2", "request-body-dumped-h3", "response-body-dumped-h1", "response-body-dumped-h2", "response-body-dumped-h3", "level=both"} {
+	c13LiveUpgrade(t, s, cnt, h1)
+	for _, must := range []string{"upgrade-baseline-ok", "upgrade-response-body-dumped", "baseline-ok-h1", "baseline-ok-h2", "baseline-ok-h3", "request-body-dumped-h1", "request-body-dumped-h2", "request-body-dumped-h3", "response-body-dumped-h1", "response-body-dumped-h2", "response-body-dumped-h3", "level=both"} {
 		if cnt[must] == 0 {
 			t.Errorf("generator never reached bucket %q", must)
 		}
 	}
 	s.Finish()
+}
+
+// c13LiveUpgrade: 101 Switching Protocols over HTTP/1.1. The caller gets the connection as
+// Response.Body (an io.ReadWriteCloser), speaks a line protocol over it and must be able to do so
+// with dump on exactly as without: same Body capabilities, same transcript; the response head (the
+// 101 head) and what the caller read are dumped as response header / body.
+func c13LiveUpgrade(t *testing.T, s *verifh.Session, cnt c13Counter, h1 *c13Peer) {
+	r := s.Rand()
+	var pend []*c13Pending
+	n := verifh.N(24, 500)
+	for c := 0; c < n; c++ {
+		path := fmt.Sprintf("/c13/upgrade/%d", c)
+		var msgs []string
+		for i, k := 0, 1+r.Intn(4); i < k; i++ {
+			msgs = append(msgs, verifh.RandBytes(r, 1+r.Intn(40), "abcdefghijklmnopqrstuvwxyz "))
+		}
+		msgs = append(msgs, "bye")
+		head := "HTTP/1.1 101 Switching Protocols\r\nConnection: Upgrade\r\nUpgrade: c13-echo\r\nX-Verif: upgrade\r\n\r\n"
+		subset := (c*7 + 8) % 16 // response-body dump on in the first pairs
+		if c >= 16 {
+			subset = r.Intn(16)
+		}
+		var cfg c13DumpCfg
+		level := []string{"client", "request", "both"}[c%3]
+		if level != "request" {
+			cfg.cl = c13GenDumper(s, 10, subset, r.Intn(2) == 0)
+		}
+		if level != "client" {
+			sub2 := subset
+			if level == "both" {
+				sub2 = r.Intn(16)
+			}
+			cfg.rq = c13GenDumper(s, 20, sub2, false)
+		}
+		type upOut struct {
+			res c13Result
+			log *c13Log
+			cl  *Client
+			at  []c13Attempt
+		}
+		run := func(cfg *c13DumpCfg) (upOut, bool) {
+			h1.mu.Lock()
+			h1.scripts[path] = []c13Resp{{raw: head, head: head, upgrade: true}}
+			h1.mu.Unlock()
+			h1.reset()
+			ch := make(chan upOut, 1)
+			go func() {
+				out := upOut{log: &c13Log{}}
+				cl := C().EnableForceHTTP1().SetTimeout(0) // no Client.Timeout: net/http wraps the body of every response in a cancelTimerBody then
+				if cfg != nil {
+					cl = cfg.applyClient(cl, out.log, r.Intn(2) == 0)
+				}
+				rq := cl.R().DisableAutoReadResponse().SetHeader("Connection", "Upgrade").SetHeader("Upgrade", "c13-echo")
+				if cfg != nil {
+					cfg.applyRequest(rq, out.log)
+				}
+				resp, err := rq.Get("http://" + h1.addr() + path)
+				out.res = c13Result{err: c13ErrClass(err)}
+				if err == nil && resp != nil && resp.Response != nil {
+					out.res.status, out.res.proto = resp.StatusCode, resp.Proto
+					rwc, ok := resp.Body.(io.ReadWriteCloser)
+					out.res.extra = fmt.Sprintf("body-is-ReadWriteCloser=%v", ok)
+					if ok {
+						var got strings.Builder
+						buf := make([]byte, 256)
+						for _, m := range msgs {
+							if _, werr := rwc.Write([]byte(m + "\n")); werr != nil {
+								out.res.extra += " write: " + c13ErrClass(werr)
+								break
+							}
+							line := ""
+							for !strings.HasSuffix(line, "\n") {
+								k, rerr := rwc.Read(buf)
+								line += string(buf[:k])
+								if rerr != nil {
+									break
+								}
+							}
+							got.WriteString(line)
+						}
+						out.res.body = got.String()
+					}
+					resp.Body.Close()
+				}
+				out.cl = cl
+				cl.CloseIdleConnections()
+				h1.waitIdle()
+				out.at = h1.reset()
+				ch <- out
+			}()
+			select {
+			case o := <-ch:
+				return o, false
+			case <-time.After(10 * time.Second):
+				return upOut{res: c13Result{err: "hung"}, log: &c13Log{}}, true
+			}
+		}
+		off, _ := run(nil)
+		on, hung := run(&cfg)
+		p := &c13Pending{
+			id:  fmt.Sprintf("live upgrade #%d %s", c, cfg.String()),
+			log: on.log, cl: on.cl, tokens: map[string]string{}, seqOf: map[string]int{},
+			outputs: map[int]bool{10: true, 20: true}, nontrivial: true,
+		}
+		want := strings.ToUpper(strings.Join(msgs, "\n") + "\n")
+		p.human = fmt.Sprintf("h1 GET with Upgrade: c13-echo -> 101, then %d lines over Response.Body; %s; result %s", len(msgs), cfg.String(), c13Clip(off.res.String(), 160))
+		if hung {
+			p.why = append(p.why, "the exchange with dump on never finished")
+		}
+		if off.res.err != "-" || off.res.status != 101 || off.res.body != want {
+			p.why = append(p.why, "harness: baseline upgrade failed: "+off.res.String())
+		} else {
+			cnt.add(s, "upgrade-baseline-ok")
+		}
+		if off.res != on.res {
+			p.why = append(p.why, fmt.Sprintf("caller-visible result differs: off {%s} on {%s}", c13Clip(off.res.String(), 300), c13Clip(on.res.String(), 300)))
+		}
+		bodyDumped := false
+		for _, d := range []*c13DumperCfg{cfg.cl, cfg.rq} {
+			if d != nil && d.flags[3] {
+				bodyDumped = true
+			}
+		}
+		if bodyDumped {
+			cnt.add(s, "upgrade-response-body-dumped")
+			p.class = "h1-upgrade-body-not-writable-with-response-body-dump"
+		}
+		var parts []string
+		for i, at := range on.at {
+			for j, content := range []string{at.head, "", head, on.res.body} {
+				tk := ""
+				if content != "" {
+					tk = fmt.Sprintf("%c%c%c", 'A'+i, "hbHB"[j], '.')
+					p.tokens[tk] = content
+					p.seqOf[tk] = []int{0, 0, 1, 2}[j]
+				}
+				parts = append(parts, tk)
+			}
+		}
+		if len(parts) == 0 {
+			p.modelLine = "c13exp " + cfg.cl.modelArg() + " " + cfg.rq.modelArg() + " -"
+		} else {
+			p.modelLine = "c13exp " + cfg.cl.modelArg() + " " + cfg.rq.modelArg() + " " + verifh.HexList(parts)
+		}
+		pend = append(pend, p)
+	}
+	c13Finish(t, s, pend)
 }
